@@ -427,6 +427,29 @@ theorem canonical_exact (a : Frac) (g : CanonGuard a.num a.den) :
     simp only [hq, hs, decide_false, ite_false]
     simp only [Bool.false_eq_true, ite_false, Res.pure_eq]
 
+/-! ## abs -/
+
+theorem absC_exact (x : TV) (hb : 1 ≤ x.1.bits) (hs : x.1.signed = true) (hx : x.1.InRange x.2)
+    (hn : x.1.InRange (-x.2)) : absC x = .ok (x.1, (x.2.natAbs : Int)) := by
+  have hc : CmpFits x (i32, 0) := by
+    unfold CmpFits
+    simp only [usualArith_i32]
+    exact ⟨inRange_promote _ _ hx, zero_inRange _⟩
+  unfold absC
+  simp only [hs, ite_true]
+  rw [cCmp_exact _ _ _ hc]
+  by_cases hneg : x.2 < 0
+  · have f : NegFits x := ⟨inRange_promote _ _ hx, inRange_promote _ _ hn⟩
+    simp only [cmpInt, hneg, decide_true, ite_true]
+    rw [cNeg_exact _ f]
+    simp only [Res.bind_ok, Res.pure_eq, convert, wrap_of_inRange _ hb _ hn,
+      Int.ofNat_natAbs_of_nonpos (Int.le_of_lt hneg)]
+  · simp only [cmpInt, hneg, decide_false]
+    simp only [Bool.false_eq_true, ite_false]
+    rw [cPos_exact _ (inRange_promote _ _ hx)]
+    simp only [Res.bind_ok, Res.pure_eq, convert, wrap_of_inRange _ hb _ hx,
+      Int.natAbs_of_nonneg (by omega : 0 ≤ x.2)]
+
 /-! ## lowest terms -/
 
 theorem lowestTerms_value (n d : Int) : value (lowestTerms n d).1 (lowestTerms n d).2 = value n d := by
